@@ -868,6 +868,18 @@ func executeEch(t *testing.T, prop string, seed uint64, p *EchPlan) *core.Result
 		if retConn == nil && retErr == nil && !p.ViaTransport {
 			res.Fail(prop, "result", "Dial returned neither a connection nor an error", "address %s: (nil, nil) at %v after %d DialFunc calls", addr, time.Duration(retT), len(es.calls))
 		}
+		// ... and every connection an attempt established is the one handed back
+		// or has been closed
+		if !p.ViaTransport && esB == nil {
+			es.rs.mu.Lock()
+			conns := append([]*simConn(nil), es.rs.conns...)
+			es.rs.mu.Unlock()
+			for _, cn := range conns {
+				if _, n := cn.closedAt(); n == 0 && cn != retConn {
+					res.Fail(prop, "loser-open", "established connection neither returned nor closed", "address %s: connection of DialFunc call %d; Dial returned (%v, %s)", addr, cn.id, retConn != nil, errText(retErr))
+				}
+			}
+		}
 		return res
 	}
 	if againDone {
